@@ -90,7 +90,8 @@ def fn_item(item):
         m = mode_from_flags(flags, False, is_bytes)
         if m.ext and not D.definable(tokens):
             return 'skipped', []
-        pos, neg = F.translate(pt, flags=flags)
+        # the regex the matcher itself executes (translate() uses other group templates; C08 ties the two together)
+        pos, neg = W.compile_pattern(pt, F._flag_transform(flags))
         if len(pos) != 1 or neg:
             return 'skipped', []
         must = R.Spec(D.den_name(tokens, m, 'must'), m.maxc)
@@ -126,10 +127,8 @@ def path_item(item):
             return 'skipped', []
         if any(len(s) >= 2 and all(t[0] == 'star' for t in s) for s in segs):
             return 'skipped', []          # `*` `*` renders as `**`: ambiguous with the globstar token
-        if internal:
-            pos, neg = W.translate(pt, G._flag_transform(flags) | internal)
-        else:
-            pos, neg = G.translate(pt, flags=flags)
+        # the regexes the matcher itself executes (see fn_item)
+        pos, neg = W.compile_pattern(pt, G._flag_transform(flags) | internal)
         nodir = bool(flags & W.NODIR)
         if len(pos) != 1 or (neg and not nodir) or len(neg) > 1:
             return 'skipped', []
